@@ -652,3 +652,6 @@ package tacquito
 //@   ensures[C17] ghost.wgAdds - old(ghost.wgAdds) == ghost.spawned - old(ghost.spawned)
 //@   loop 1 invariant[C17] ghost.wgAdds - old(ghost.wgAdds) == ghost.spawned - old(ghost.spawned)
 //@   loop 1 invariant[C17] ghost.lclosed == old(ghost.lclosed) && ghost.waited == old(ghost.waited)
+
+//@ func (r Request) Fields(keys ...ContextKey) (m map[string]string)
+//@   modifies *
